@@ -128,7 +128,7 @@ func (i Info) AppendHash(dst []byte, h hash.Hash) []byte {
 	for _, infoForm := range i.Form {
 		var formType string
 		var hasType bool
-		fields := make([]string, 0, infoForm.Len())
+		fields := make([]hashChunk, 0, infoForm.Len())
 		infoForm.ForFields(func(f form.FieldData) {
 			if f.Var == "FORM_TYPE" {
 				// Use the value as it appears on the wire, whatever the type of the
@@ -138,21 +138,25 @@ func (i Info) AppendHash(dst []byte, h hash.Hash) []byte {
 				}
 				return
 			}
-			fields = append(fields, f.Var)
-		})
-		sort.Strings(fields)
-		var text strings.Builder
-		text.WriteString(formType)
-		text.WriteString("<")
-		for _, f := range fields {
-			text.WriteString(f)
-			text.WriteString("<")
-			vals, _ := infoForm.Raw(f)
+			// Sort a copy of the field's own values: the form must not be modified
+			// and fields sharing a var (or having none) each keep their values.
+			vals := append([]string(nil), f.Raw...)
 			sort.Strings(vals)
+			var text strings.Builder
+			text.WriteString(f.Var)
+			text.WriteString("<")
 			for _, val := range vals {
 				text.WriteString(val)
 				text.WriteString("<")
 			}
+			fields = append(fields, hashChunk{key: f.Var, text: text.String()})
+		})
+		sortChunks(fields)
+		var text strings.Builder
+		text.WriteString(formType)
+		text.WriteString("<")
+		for _, f := range fields {
+			text.WriteString(f.text)
 		}
 		forms = append(forms, hashChunk{key: formType, text: text.String()})
 	}
